@@ -71,6 +71,145 @@ theorem within_complete (cwd directory target : Chars) (h1 : (abspath cwd direct
     simp only at h1
     simp [h1]
 
+/-! ### joining a plain member name -/
+
+/-- a path component that `normpath` keeps -/
+def PlainComp (c : Chars) : Prop := c ≠ [] ∧ c ≠ ['.'] ∧ c ≠ ['.', '.']
+
+/-- the loop of `normpath`, returning `new_comps` reversed -/
+def normAcc : List Chars → List Chars → List Chars
+  | acc, [] => acc
+  | acc, c :: cs =>
+    if c = [] ∨ c = ['.'] then normAcc acc cs
+    else if c = ['.', '.'] then normAcc acc.tail cs
+    else normAcc (c :: acc) cs
+
+theorem normAux_eq_normAcc (acc cs : List Chars) : normAux acc cs = (normAcc acc cs).reverse := by
+  induction cs generalizing acc with
+  | nil => rfl
+  | cons c cs ih =>
+    unfold normAux normAcc
+    by_cases h1 : c = [] ∨ c = ['.']
+    · simp only [h1, if_true]; exact ih acc
+    · simp only [h1, if_false]
+      by_cases h2 : c = ['.', '.']
+      · simp only [h2, if_true]; exact ih acc.tail
+      · simp only [h2, if_false]; exact ih (c :: acc)
+
+theorem normAcc_cons (acc : List Chars) (c : Chars) (cs : List Chars) :
+    normAcc acc (c :: cs) =
+      if c = [] ∨ c = ['.'] then normAcc acc cs
+      else if c = ['.', '.'] then normAcc acc.tail cs
+      else normAcc (c :: acc) cs := rfl
+
+theorem normAcc_append (acc A B : List Chars) : normAcc acc (A ++ B) = normAcc (normAcc acc A) B := by
+  induction A generalizing acc with
+  | nil => rfl
+  | cons c cs ih =>
+    simp only [List.cons_append]
+    rw [normAcc_cons acc c (cs ++ B), normAcc_cons acc c cs]
+    by_cases h1 : c = [] ∨ c = ['.']
+    · simp only [h1, if_true]; exact ih acc
+    · simp only [h1, if_false]
+      by_cases h2 : c = ['.', '.']
+      · simp only [h2, if_true]; exact ih acc.tail
+      · simp only [h2, if_false]; exact ih (c :: acc)
+
+theorem normAcc_plain (acc B : List Chars) (h : ∀ c ∈ B, PlainComp c) : normAcc acc B = B.reverse ++ acc := by
+  induction B generalizing acc with
+  | nil => rfl
+  | cons c cs ih =>
+    obtain ⟨h0, h1, h2⟩ := h c (by simp)
+    rw [normAcc_cons]
+    have h01 : ¬ (c = [] ∨ c = ['.']) := fun e => e.elim h0 h1
+    simp only [h01, if_false, h2]
+    rw [ih (c :: acc) (fun x hx => h x (List.mem_cons_of_mem _ hx))]
+    simp
+
+theorem normAux_append_plain (A B : List Chars) (h : ∀ c ∈ B, PlainComp c) :
+    normAux [] (A ++ B) = normAux [] A ++ B := by
+  rw [normAux_eq_normAcc, normAux_eq_normAcc, normAcc_append, normAcc_plain _ _ h]
+  simp
+
+theorem splitAtChar_ne_nil (d : Char) (cs : Chars) : splitAtChar d cs ≠ [] := by
+  induction cs with
+  | nil => simp [splitAtChar]
+  | cons c cs ih =>
+    unfold splitAtChar
+    cases h : splitAtChar d cs with
+    | nil => exact absurd h ih
+    | cons f fs => by_cases hc : c = d <;> simp [hc]
+
+theorem splitAtChar_cons (d c : Char) (cs : Chars) :
+    splitAtChar d (c :: cs) =
+      match splitAtChar d cs with
+      | [] => [[]]
+      | f :: fs => if c = d then [] :: f :: fs else (c :: f) :: fs := rfl
+
+theorem splitAtChar_append (d : Char) (p m : Chars) :
+    splitAtChar d (p ++ d :: m) = splitAtChar d p ++ splitAtChar d m := by
+  induction p with
+  | nil =>
+    show splitAtChar d (d :: m) = splitAtChar d [] ++ splitAtChar d m
+    rw [splitAtChar_cons]
+    cases h : splitAtChar d m with
+    | nil => exact absurd h (splitAtChar_ne_nil d m)
+    | cons f fs => simp [splitAtChar]
+  | cons c cs ih =>
+    show splitAtChar d (c :: (cs ++ d :: m)) = splitAtChar d (c :: cs) ++ splitAtChar d m
+    rw [splitAtChar_cons d c (cs ++ d :: m), splitAtChar_cons d c cs, ih]
+    cases h : splitAtChar d cs with
+    | nil => exact absurd h (splitAtChar_ne_nil d cs)
+    | cons f fs => by_cases hc : c = d <;> simp [hc]
+
+theorem takeWhile_append_of_stop (p : Char → Bool) (a b : Chars) (h : ∃ x ∈ a, p x = false) :
+    (a ++ b).takeWhile p = a.takeWhile p := by
+  induction a with
+  | nil => obtain ⟨x, hx, _⟩ := h; simp at hx
+  | cons c cs ih =>
+    simp only [List.cons_append, List.takeWhile_cons]
+    by_cases hc : p c = true
+    · simp only [hc, if_true]
+      congr 1
+      apply ih
+      obtain ⟨x, hx, hpx⟩ := h
+      rcases List.mem_cons.mp hx with rfl | hx
+      · rw [hc] at hpx; cases hpx
+      · exact ⟨x, hx, hpx⟩
+    · simp [hc]
+
+/-- joining a relative name made of plain components to an absolute folder path appends the components -/
+theorem abspath_join_plain (cwd path m : Chars) (habs : isAbs path = true)
+    (hend : ∃ x, path.getLast? = some x ∧ x ≠ '/') (hm : isAbs m = false)
+    (hplain : ∀ c ∈ splitSlash m, PlainComp c) :
+    abspath cwd (joinPath path m)
+      = ⟨(abspath cwd path).slashes, (abspath cwd path).comps ++ splitSlash m⟩ := by
+  obtain ⟨x, hx, hxs⟩ := hend
+  have hne : path ≠ [] := by intro e; rw [e] at hx; simp at hx
+  have hjoin : joinPath path m = path ++ '/' :: m := by
+    unfold joinPath
+    have h1 : ¬ (path = [] ∨ path.getLast? = some '/') := by
+      intro h
+      rcases h with h | h
+      · exact hne h
+      · rw [hx] at h; exact hxs (Option.some.inj h)
+    simp [hm, h1]
+  have habs' : isAbs (path ++ '/' :: m) = true := by
+    cases path with
+    | nil => exact absurd rfl hne
+    | cons c cs => simpa [isAbs] using habs
+  have hlead : leadingSlashes (path ++ '/' :: m) = leadingSlashes path := by
+    unfold leadingSlashes
+    rw [takeWhile_append_of_stop]
+    refine ⟨x, List.mem_of_getLast? hx, by simpa using hxs⟩
+  unfold abspath
+  rw [hjoin]
+  simp only [habs', habs, if_true]
+  unfold normAbs
+  rw [hlead]
+  simp only [splitSlash] at hplain ⊢
+  rw [splitAtChar_append, normAux_append_plain _ _ hplain]
+
 /-! ### file names -/
 
 theorem splitAtChar_none (d : Char) (s : Chars) (h : d ∉ s) : splitAtChar d s = [s] := by
